@@ -839,8 +839,10 @@ func c17CommentTextAndPlace(c *Ctx) {
 			onlyNew := false
 			for _, g := range lexicalGuards(pm, r, gd.Decl.Body) {
 				if be, isBin := ast.Unparen(g.E).(*ast.BinaryExpr); isBin && be.Op == token.EQL && g.Truth {
-					if sel, isSel := ast.Unparen(be.X).(*ast.SelectorExpr); isSel && sel.Sel.Name == "NewPath" {
-						onlyNew = true
+					for _, side := range []ast.Expr{be.X, be.Y} {
+						if sel, isSel := ast.Unparen(side).(*ast.SelectorExpr); isSel && sel.Sel.Name == "NewPath" {
+							onlyNew = true
+						}
 					}
 				}
 			}
